@@ -1281,3 +1281,14 @@ def main(ctx):
               # interpolating a table at its own nodes returns the node values
               }
     tiled_elementwise(ctx, "long-arrays", ispecs, marks(ctx), harvest=([__import__("esutil.stat.util", fromlist=["x"])], []))
+
+    # ------------------------------------------------------------ many distinct tables / data sets, then each again
+    from mc.worlds import revisit
+    revisit(ctx, "revisit-after-many-distinct-calls", {
+        "interplin(44 tables)": (lambda: None, [("table", k) for k in range(44)],
+                                 lambda o, c: [np.asarray(stat.interplin(np.arange(5.0) * (c[1] + 1), np.array([0.0, 1.0, 2.5, 3.0, 7.0]) + 0.1 * c[1], np.array([0.5, 2.7, 6.0, 9.0]) + 0.1 * c[1]))]),
+        "sigma_clip(44 data sets)": (lambda: None, [("clip", k) for k in range(44)],
+                                     lambda o, c: [np.asarray(v) for v in stat.sigma_clip(np.array([1.0, 1.1, 0.9, 1.05, 0.95, 50.0 + c[1], 1.02]) * (1 + 0.01 * c[1]), nsig=2.0, get_indices=True, silent=True)]),
+        "wmom(44 data sets)": (lambda: None, [("wmom", k) for k in range(44)],
+                               lambda o, c: [np.asarray(v) for v in stat.wmom(np.array([1.0, 2.0, 4.0, 8.0]) + c[1], np.array([1.0, 2.0, 0.5, 1.0 + c[1]]), calcerr=True, sdev=True)]),
+    })
